@@ -71,6 +71,18 @@ def scenario(draw, tier="quick"):
         op = draw(gen.place_op(spec, state, nr, kinds=kinds, fok=False, pers=True, sp=spec["bsp_market"], mv=False,
                                sizes="level"))
         ops.append(op)
+    # directed: a taker crossing two or more levels on runner 0 (fills at several prices); another runner is then
+    # removed with a factor >= 2.5 and nothing fills afterwards - the settled average must follow the reduced fills
+    directed_mp = kind != "LINE" and nr >= 3 and draw(st.integers(0, 3)) == 0
+    if directed_mp:
+        side_ = draw(st.sampled_from(["BACK", "LAY"]))
+        lv = states_books[0][0] if side_ == "BACK" else states_books[0][1]
+        if len(lv) >= 2:
+            k_ = draw(st.integers(1, len(lv) - 1))
+            ops.append({"op": "place", "r": 0, "side": side_, "type": "LIMIT", "tick": lv[k_][0],
+                        "size": round(sum(x[1] for x in lv[: k_ + 1]) - draw(st.sampled_from([0, 0.01])), 2), "pers": "LAPSE"})
+        else:
+            directed_mp = False
     n_clients = draw(st.sampled_from([1, 1, 2]))
     strategies = []
     # a second strategy trades through its own client or (one time in three) through the SAME client: the cleared
@@ -90,7 +102,11 @@ def scenario(draw, tier="quick"):
         steps.append({"dt": 500, "k": "book", "rc": [{"r": r, "trd": [[max(0, min(nt - 1, mids[r] + draw(st.integers(-4, 4)))),
                                                                       gen.size_c(draw, 2, 20000) / 100]]}]})
     removed = set()
-    if kind != "LINE" and nr >= 3 and draw(st.integers(0, 3)) == 0:
+    if directed_mp:
+        r = draw(st.integers(1, nr - 1))
+        removed.add(r)
+        steps.append({"dt": 500, "k": "remove", "r": r, "af": draw(st.sampled_from([2.5, 10, 33.3]))})
+    elif kind != "LINE" and nr >= 3 and draw(st.integers(0, 3)) == 0:
         r = draw(st.integers(0, nr - 1))
         removed.add(r)
         steps.append({"dt": 500, "k": "remove", "r": r, "af": draw(st.sampled_from([1.0, 2.5, 10, 33.3]))})
